@@ -1,5 +1,5 @@
 /* C17-H4: every static inverse-CDF table in silk/ and celt/ (list generated from the sources at run time):
-   viewed as a flat byte array, each maximal run is strictly decreasing and ends with a 0 inside the array, so every
+   each maximal run (1-D tables may concatenate several ICDFs; 2-D tables hold one per row) is strictly decreasing and ends with a 0 inside the array, so every
    (sub-)table start the codec uses yields a valid, terminated ICDF. Symbolic index => one query per table. */
 #include "common.h"
 #include "main.h"
@@ -9,6 +9,10 @@
    VASSERT(sizeof(name)==(n),"declared size as scanned"); \
    if(i==(n)-1) VASSERT(A[i]==0, #name ": last entry is 0"); \
    else VASSERT(A[i]==0 || A[i]>A[i+1], #name ": strictly decreasing up to its 0"); cnt++; }while(0)
+/* 2-D tables: one ICDF per row, indexed directly (cbmc 6.11 mis-reads 2-D byte arrays through flat/row pointers) */
+#define CHECK2(name, R, C) do{ int r=vt_range(0,(R)-1), c=vt_range(0,(C)-1); \
+   if(c==(C)-1) VASSERT(name[r][c]==0, #name ": last entry of every row is 0"); \
+   else VASSERT(name[r][c]==0 || name[r][c]>name[r][c+1], #name ": every row strictly decreasing up to its 0"); cnt++; }while(0)
 #define CHECK_FIRST(name, ftb) VASSERT(((const unsigned char*)(name))[0] < (1u<<(ftb)) || (ftb)==8, #name ": first entry below 2^ftb")
 void harness(void){
   int cnt=0;
